@@ -370,6 +370,10 @@ def simulated_anneal_tree(
         if progbar:
             pbar.update()
 
+    # invalidate any compiled contractions and explicit index orderings,
+    # which might refer to nodes that have since been rearranged
+    tree.reset_contraction_indices()
+
     return tree
 
 
